@@ -468,6 +468,18 @@ expand(struct token *t)
 	return true;
 }
 
+/* get the next token of a macro invocation; a newline there is white space (C11 6.10.3p10) */
+static void
+argnext(struct token *t)
+{
+	bool space = false;
+
+	while (rawnext(t), t->kind == TNEWLINE)
+		space = true;
+	if (space)
+		t->space = true;
+}
+
 static void
 expandfunc(struct macro *m)
 {
@@ -482,7 +494,7 @@ expandfunc(struct macro *m)
 	depth = macrodepth;
 	tok = (struct array){0};
 	arg = xreallocarray(NULL, m->nparam, sizeof(*arg));
-	rawnext(t);
+	argnext(t);
 	for (i = 0; i < m->nparam; ++i) {
 		p = &m->param[i];
 		if (p->flags & PARAMSTR) {
@@ -509,7 +521,7 @@ expandfunc(struct macro *m)
 				arrayaddbuf(&tok, t, sizeof(*t));
 				++arg[i].ntoken;
 			}
-			rawnext(t);
+			argnext(t);
 		}
 		if (p->flags & PARAMSTR) {
 			arrayaddbuf(&str, "\"", 2);
@@ -521,7 +533,7 @@ expandfunc(struct macro *m)
 		}
 		if (t->kind == TRPAREN)
 			break;
-		rawnext(t);
+		argnext(t);
 	}
 	if (i + 1 < m->nparam)
 		error(&t->loc, "not enough arguments for macro '%s'", m->name);
